@@ -2,7 +2,7 @@
     Statements only; proofs in Proofs/OpsProofs.v and Proofs/SeqPathProofs.v.
     Models: Model/Start.v (consumer side of a link), Model/Ops.v (operator chains, Reorder). *)
 From Noir Require Import Base.Elem Model.Start Model.Ops Proofs.StartSpec Proofs.WinCountSpec
-  Proofs.OpsSpec Proofs.OpsProofs Proofs.SeqPathProofs.
+  Proofs.OpsSpec Proofs.OpsProofs Proofs.SeqPathProofs Model.Ops2 Proofs.Ops2Proofs.
 Open Scope Z_scope.
 
 (** A single producer replica's stream, cut into batches in ANY way (fixed 1..n, adaptive,
@@ -41,6 +41,45 @@ Theorem C16_reorder_stable : forall {A} (l : list (A * Z)) (t : Z),
   filter (fun x => snd x =? t) (rsort l) = filter (fun x => snd x =? t) l.
 Proof. exact @rsort_stable. Qed.
 
+(** Every element-wise operator of the API (filter_map, flatten, inspect, rich_map,
+    rich_flat_map, rich_filter_map, keyed flat_map / filter_map / flatten ... — all instances
+    of [sflat_machine], Model/Ops2.v) behaves like the iterator adaptor of the same name: the
+    values that leave are the sequential scan of the closure over the values that enter, in
+    arrival order, whatever control elements are interleaved and however many rounds pass. *)
+Theorem C16_elementwise_is_iterator_chain : forall {S A B} (f : S -> A -> S * list B) (s0 : S) (l : list (elem A)),
+  payloads (run (sflat_machine f s0) l) = sscan f s0 (payloads l).
+Proof. exact @sflat_payloads. Qed.
+Theorem C16_filter_map : forall {A B} (g : A -> option B) (l : list (elem A)),
+  payloads (run (filter_map_machine g) l) = flat_map (fun v => olist (g v)) (payloads l).
+Proof. exact @filter_map_payloads. Qed.
+Theorem C16_flatten : forall {B} (l : list (elem (list B))),
+  payloads (run flatten_machine l) = concat (payloads l).
+Proof. exact @flatten_payloads. Qed.
+Theorem C16_inspect_identity : forall {A} (l : list (elem A)), run inspect_machine l = l.
+Proof. exact @inspect_identity. Qed.
+(** keyed stateful operators: the outputs of key k are the scan of the closure over k's
+    values only — the states of two keys never mix *)
+Theorem C16_keyed_elementwise_per_key : forall {S A B} (f : S -> Z -> A -> S * list B) (s0 : S)
+    (l : list (elem (Z * A))) (k : Z),
+  vals_of k (payloads (run (keyed_sflat_machine f s0) l))
+  = sscan (fun s v => f s k v) s0 (vals_of k (payloads l)).
+Proof. exact @keyed_sflat_payloads_per_key. Qed.
+(** add_timestamps / drop_timestamps keep every value in place; add_timestamps stamps each
+    with the user's timestamp (input without timestamps: the operator panics otherwise) *)
+Theorem C16_add_timestamps : forall {A} (tg : A -> Z) (wg : A -> Z -> option Z) (l : list (elem A)),
+  no_ts l ->
+  payloads (run (add_ts_machine tg wg) l) = payloads l /\
+  tdata_of (run (add_ts_machine tg wg) l) = map (fun v => (v, tg v)) (payloads l).
+Proof. intros A tg wg l H. split; [exact (add_ts_payloads tg wg l H)|exact (add_ts_stamps tg wg l H)]. Qed.
+Theorem C16_drop_timestamps : forall {A} (l : list (elem A)),
+  payloads (run drop_ts_machine l) = payloads l /\ no_ts (run drop_ts_machine l).
+Proof. intros A l. split; [exact (drop_ts_payloads l)|exact (drop_ts_no_ts l)]. Qed.
+Example C16_elementwise_example :
+  run (rich_flat_map1_machine (fun c v => (c + 1, if Z.odd (c + 1) then [v; c + 1] else [v])) 0)
+      [Tst 7 1; Wm 1; Item 8; FAR; Tst 9 4; FAR; Terminate]
+  = ([Tst 7 1; Tst 1 1; Wm 1; Item 8; FAR; Tst 9 4; Tst 3 4; FAR; Terminate] : list (elem Z)).
+Proof. vm_compute. reflexivity. Qed.
+
 Example C16_reorder_example :
   run reorder_machine [Tst 1 5; Tst 2 3; Tst 3 5; Wm 4; Tst 4 4; FAR; Terminate]
   = [Tst 2 3; Wm 4; Tst 4 4; Tst 1 5; Tst 3 5; FAR; Terminate].
@@ -50,3 +89,7 @@ Print Assumptions C16_sequential_link.
 Print Assumptions C16_reorder_sorted.
 Print Assumptions C16_reorder_permutation.
 Print Assumptions C16_reorder_released_when_covered.
+Print Assumptions C16_elementwise_is_iterator_chain.
+Print Assumptions C16_keyed_elementwise_per_key.
+Print Assumptions C16_add_timestamps.
+Print Assumptions C16_drop_timestamps.
